@@ -23,6 +23,11 @@
 //! with keys whose value depends on the active graph (EXISTS / NOT EXISTS, BOUND, IF, COALESCE, graph variables), and
 //!   (ix)  every key is evaluated in the active graph of the SELECT its ORDER BY belongs to: the oracle evaluates the
 //!         whole query as SPARQL 1.1 section 18 prescribes; LIMIT / OFFSET windows of the sub-selects make their order visible.
+//! Conversion cases (kinds v:*, before the sweep constants at the end of the file): the promotions integer/decimal -> f64 / f32 that the
+//! operator '<' performs (coerce_to_double / coerce_to_float), observed through ?v * 1e0 and ?v * "1"^^xsd:float, compared in Coq
+//! with round-to-nearest-even (Rounding.v / Engine.v) and with Rust's correctly rounded parser, and
+//!   (x)   no number of the target format lies between the exact value and its image (the promotion never crosses a float),
+//!         which is what makes the exact order of ORDER BY and the promoted order of '<' compatible.
 //! The model receives, for every pool term, the value that the implementation itself parsed
 //! (Debug rendering of ResultTerm::value()), so that lexical parsing is not part of the model.
 use sophia_api::prelude::*;
@@ -500,7 +505,7 @@ fn observe_pair(p: &Pool, k1: Key, k2: Key) -> Result<(u8, String), String> {
 //   - the oracle checks on the observed TERMS: permutation, kind ranks, '<' re-implemented from the lexical
 //     forms, exact ties broken by the next key, and agreement with the engine's own operator '<' evaluated
 //     pairwise by BIND (and FILTER) in a cross-product query;
-//   - the Coq model sorts the observed items (rows_ok), evaluates '<' on them (lt_table_ok), checks LIMIT /
+//   - the Coq model sorts the observed items (rows_ok), evaluates '<' on them, conversions included (lt_table_engine_ok, Engine.v), checks LIMIT /
 //     OFFSET windows and DISTINCT outputs (window_ok / sorted_ok) and, for ?a OP ?b on integers, the value and
 //     representation computed by the engine (int_arith_ok).
 const OPV: [&str; 3] = ["a", "b", "c"];
@@ -761,7 +766,7 @@ fn run_qcase(c: &QCase, verbose: bool) -> QOut {
     let mut parts: Vec<String> = vec![];
     let out_pos: Vec<usize> = out.iter().filter_map(|s| pos_of(*s)).collect();
     parts.push(format!("rows_ok {} rows {}", coq_list(descs.iter().map(|d| coq_bool(*d).to_string())), coq_list(out_pos.iter().map(|x| x.to_string()))));
-    if let Some(m) = &lt { for k in 0..nk { parts.push(format!("lt_table_ok rows {k} {}", coq_list(order.iter().map(|a| coq_list(order.iter().map(|b| m[k][*a][*b].to_string())))))); } }
+    if let Some(m) = &lt { for k in 0..nk { parts.push(format!("lt_table_engine_ok rows {k} {}", coq_list(order.iter().map(|a| coq_list(order.iter().map(|b| m[k][*a][*b].to_string())))))); } }
     // ---- integer arithmetic of key 0 against the model
     if let Some(op) = c.arith {
         let mut es = vec![];
@@ -1332,6 +1337,235 @@ fn run_ccase(c: &CCase, verbose: bool) -> QOut {
     QOut { text, desc, failure, body, tags, bumps }
 }
 
+// ================================================================ conversions integer/decimal -> f64 / f32 (kind v:*)
+// The operator '<' promotes an integer or decimal operand with SparqlNumber::coerce_to_double / coerce_to_float.
+// A case = up to 4 numeric literals; the engine computes  ?v * 1e0  and  ?v * "1"^^xsd:float  (the promotion followed
+// by an exact product) where ?v is the literal itself or a value computed from it (quotient, product: BigInt values
+// inside the isize range, decimals with a negative scale).  Coq: Engine.v (what the library routines do) and
+// Rounding.v (round-to-nearest-even) on the same numbers.  Oracle (x): the promotion never crosses a float: no
+// number of the target format lies between the exact value and its image (weakly on the side of the exact value),
+// which is what makes ORDER BY (exact values) and '<' (promoted values) agree.
+mod dstr {
+    //! non-negative decimal strings "int.frac" (exact arithmetic on digits)
+    pub fn split(s: &str) -> (Vec<u8>, Vec<u8>) {
+        let (i, f) = s.split_once('.').unwrap_or((s, ""));
+        (i.bytes().map(|b| b - b'0').collect(), f.bytes().map(|b| b - b'0').collect())
+    }
+    pub fn join(i: &[u8], f: &[u8]) -> String {
+        let i: String = i.iter().skip_while(|d| **d == 0).map(|d| (d + b'0') as char).collect();
+        let mut f: Vec<u8> = f.to_vec(); while f.last() == Some(&0) { f.pop(); }
+        let f: String = f.iter().map(|d| (d + b'0') as char).collect();
+        format!("{}{}{}", if i.is_empty() { "0" } else { &i }, if f.is_empty() { "" } else { "." }, f)
+    }
+    /// exact decimal expansion of |f| (finite)
+    pub fn exact(f: f64) -> String { let (i, fr) = split(&format!("{:.1100}", f.abs())); join(&i, &fr) }
+    pub fn add(a: &str, b: &str) -> String {
+        let ((ai, mut af), (bi, mut bf)) = (split(a), split(b));
+        let nf = af.len().max(bf.len()); af.resize(nf, 0); bf.resize(nf, 0);
+        let ni = ai.len().max(bi.len()) + 1;
+        let pad = |v: Vec<u8>| { let mut p = vec![0u8; ni - v.len()]; p.extend(v); p };
+        let (mut x, y): (Vec<u8>, Vec<u8>) = ([pad(ai), af].concat(), [pad(bi), bf].concat());
+        let mut c = 0;
+        for k in (0..x.len()).rev() { let s = x[k] + y[k] + c; x[k] = s % 10; c = s / 10; }
+        join(&x[..ni], &x[ni..])
+    }
+    pub fn half(a: &str) -> String {
+        let (i, f) = split(a); let ni = i.len();
+        let mut x: Vec<u8> = [i, f, vec![0]].concat();
+        let mut r = 0;
+        for d in x.iter_mut() { let v = r * 10 + *d; *d = v / 2; r = v % 2; }
+        join(&x[..ni], &x[ni..])
+    }
+    /// a - 10^-(depth) where depth >= number of fraction digits of a, a > 0
+    pub fn minus_unit(a: &str, depth: usize) -> String {
+        let (i, mut f) = split(a); let ni = i.len(); f.resize(depth.max(f.len()), 0);
+        let mut x: Vec<u8> = [i, f].concat();
+        for k in (0..x.len()).rev() { if x[k] > 0 { x[k] -= 1; break; } else { x[k] = 9; } }
+        join(&x[..ni], &x[ni..])
+    }
+    /// a + 10^-(depth)
+    pub fn plus_unit(a: &str, depth: usize) -> String {
+        let (_, f) = split(a); let depth = depth.max(f.len() + 1);
+        add(a, &format!("0.{}1", "0".repeat(depth - 1)))
+    }
+    pub fn frac_len(a: &str) -> usize { a.split_once('.').map_or(0, |p| p.1.len()) }
+    pub fn pow2(k: i32) -> String { if k <= 1023 { exact(2f64.powi(k)) } else { let h = pow2(k - 1); add(&h, &h) } }
+}
+const CONV_BASE: usize = 500_000_000;
+const XFLOAT: &str = "\"1\"^^<http://www.w3.org/2001/XMLSchema#float>";
+struct ConvCase { family: &'static str, form: u8, inputs: Vec<(String, &'static str)> }
+fn conv_form_expr(form: u8) -> &'static str { match form { 0 => "?x", 1 => "(?x / 7)", 2 => "(?x * 1)", 3 => "(?x / 1000)", _ => "(?x * 1000000000000000000000000000000)" } }
+fn conv_random_digits(r: &mut Rng, n: usize) -> String { let mut s = String::new(); for k in 0..n { let d = if k == 0 { 1 + r.below(9) } else { r.below(10) }; s.push((b'0' + d as u8) as char); } s }
+fn conv_random_f64(r: &mut Rng) -> f64 {
+    // a positive finite double: exponents near 0, the whole range, or the subnormals
+    let e: u64 = match r.below(6) { 0 => 0, 1 => r.below(2047) as u64, 2 => 1 + r.below(3) as u64, 3 => 2044 + r.below(3) as u64, _ => 1023 - 60 + r.below(160) as u64 };
+    let fr = match r.below(4) { 0 => 0, 1 => (1u64 << 52) - 1, 2 => r.next() & ((1u64 << 52) - 1) & !((1u64 << 29) - 1), _ => r.next() & ((1u64 << 52) - 1) };
+    let f = f64::from_bits((e.min(2046) << 52) | fr);
+    if f == 0.0 { f64::from_bits(1) } else { f }
+}
+fn conv_random_f32(r: &mut Rng) -> f32 {
+    let e: u32 = match r.below(5) { 0 => 0, 1 => r.below(255) as u32, 2 => 252 + r.below(3) as u32, _ => 127 - 30 + r.below(70) as u32 };
+    let fr = match r.below(3) { 0 => 0, 1 => (1u32 << 23) - 1, _ => (r.next() as u32) & ((1u32 << 23) - 1) };
+    let f = f32::from_bits((e.min(254) << 23) | fr);
+    if f == 0.0 { f32::from_bits(1) } else { f }
+}
+/// x, or x moved by a decimal unit far beyond its last digit (0, 3, 30 or 60 places deeper)
+fn conv_perturb(r: &mut Rng, x: &str) -> String {
+    let depth = dstr::frac_len(x) + [1, 3, 30, 60][r.below(4)];
+    match r.below(3) { 0 => x.to_string(), 1 => dstr::plus_unit(x, depth), _ => dstr::minus_unit(x, depth) }
+}
+/// inputs on which the library routines used before the repairs (BigDecimal::to_f64 / to_f32, BigInt::to_f64) went wrong:
+/// 10^100 + 1.5 and 10^45 + 1.5 (inexact power of ten; the first one crossed the double nearest to 10^100), 1 + 2^-53 + 10^-90
+/// (digits cut off before rounding), 1.0000000596046448 (f32 through f64), 2^128 + 2^75 + 2 and 2^130 + 2^77 + 2^5 (sticky bit)
+fn conv_regressions(k: usize) -> ConvCase {
+    let w: Vec<(String, &'static str)> = vec![
+        (format!("1{}1.5", "0".repeat(99)), "decimal"), (format!("1{}1.5", "0".repeat(44)), "decimal"),
+        ("1.000000000000000111022302462515654042363166809082031250000000000000000000000000000000000001".into(), "decimal"), ("1.0000000596046448".into(), "decimal"),
+        ("340282366920938501241196484123539832834".into(), "integer"), ("1361129467683754004969225881555719684128".into(), "integer"),
+        ("-340282366920938501241196484123539832834".into(), "integer"), (format!("-1{}1.5", "0".repeat(99)), "decimal")];
+    ConvCase { family: "regression", form: 0, inputs: w[4 * (k % 2)..4 * (k % 2) + 4].to_vec() }
+}
+fn conv_gen(r: &mut Rng, k: usize) -> ConvCase {
+    if k < 2 { return conv_regressions(k); }
+    let mut inputs: Vec<(String, &'static str)> = vec![];
+    let mut form = 0u8;
+    let nosign = |s: String| s; // the signs are drawn at the end
+    let as_dec = |s: String| if s.contains('.') { s } else { format!("{s}.0") };
+    let fam = r.below(14);
+    let family = match fam {
+        0 => { for _ in 0..4 { // isize: around the points where f64 / f32 start to round
+                   let a = 24 + r.below(39) as i32; let b = a - [53, 24, 54, 25][r.below(4)]; let d = r.below(5) as i128 - 2;
+                   let v: i128 = if r.chance(1, 5) { (r.next() as i64) as i128 } else { ((1i128 << a) + if b >= 0 { 1i128 << b } else { 0 } + d).min(i64::MAX as i128) };
+                   inputs.push((nosign(v.to_string()), "integer")); } "isize" }
+        1 => { for _ in 0..4 { let a = 63 + r.below(70) as i32; let b = a - [53, 24, 54, 25][r.below(4)];
+                   let mut v = dstr::add(&dstr::pow2(a), &dstr::pow2(b));
+                   match r.below(3) { 0 => {} 1 => v = dstr::add(&v, &r.range(1, 3).to_string()), _ => v = dstr::minus_unit(&v, 0) }
+                   inputs.push((nosign(v), "integer")); } "bigint-halfway" }
+        2 => { for _ in 0..4 { // three limbs or more, one more bit somewhere below the half-way bit
+                   let a = 128 + r.below(300) as i32; let b = a - [53, 24][r.below(2)]; let c = r.below((b - 1) as usize) as i32;
+                   let v = dstr::add(&dstr::add(&dstr::pow2(a), &dstr::pow2(b)), &dstr::pow2(c));
+                   inputs.push((nosign(v), "integer")); } "bigint-sticky" }
+        3 => { for _ in 0..4 { let n = [20, 25, 39, 40, 80, 200, 308, 309, 310, 330][r.below(10)]; inputs.push((nosign(conv_random_digits(r, n)), "integer")); } "bigint-random" }
+        4 => { for _ in 0..4 { // the overflow thresholds MAX + ulp/2 of both formats
+                   let t = if r.chance(1, 2) { dstr::add(&dstr::exact(f64::MAX), &dstr::pow2(970)) } else { dstr::add(&dstr::exact(f32::MAX as f64), &dstr::pow2(103)) };
+                   let t = match r.below(4) { 0 => t, 1 => dstr::minus_unit(&t, 0), 2 => dstr::add(&t, "1"), _ => dstr::minus_unit(&t, 1) };
+                   if r.chance(1, 2) && !t.contains('.') { inputs.push((nosign(t), "integer")); } else { let t = conv_perturb(r, &t); inputs.push((nosign(as_dec(t)), "decimal")); } } "overflow-threshold" }
+        5 => { for _ in 0..4 { let n = r.range(1, 40); let sc = r.below(31); let d = conv_random_digits(r, n + sc);
+                   inputs.push((nosign(format!("{}.{}", &d[..n], &d[n..])), "decimal")); } "decimal-random" }
+        6 => { for _ in 0..4 { let d = conv_random_f64(r); let m = dstr::half(&dstr::add(&dstr::exact(d), &dstr::exact(d.next_up().min(f64::MAX))));
+                   inputs.push((nosign(as_dec(conv_perturb(r, &m))), "decimal")); } "f64-halfway" }
+        7 => { for _ in 0..4 { let d = conv_random_f32(r); let m = dstr::half(&dstr::add(&dstr::exact(d as f64), &dstr::exact(d.next_up().min(f32::MAX) as f64)));
+                   // also: above the f32 half-way point by less than half an ulp of f64 (double rounding)
+                   let m = if r.chance(1, 3) { let u = dstr::exact((m.parse::<f64>().unwrap()).next_up()); dstr::half(&dstr::add(&m, &dstr::half(&dstr::add(&m, &u)))) } else { m };
+                   inputs.push((nosign(as_dec(conv_perturb(r, &m))), "decimal")); } "f32-halfway" }
+        8 => { for _ in 0..4 { // gradual underflow: (k + 1/2) ulps of the least exponent, tiny numbers
+                   let u = if r.chance(1, 2) { dstr::pow2(-1074) } else { dstr::exact(f32::from_bits(1) as f64) };
+                   let mut m = dstr::half(&u); for _ in 0..r.below(4) { m = dstr::add(&m, &u); }
+                   let m = match r.below(5) { 0 => format!("0.{}1", "0".repeat(r.range(320, 420))), 1 => dstr::half(&dstr::half(&u)), _ => conv_perturb(r, &m) };
+                   inputs.push((nosign(as_dec(m)), "decimal")); } "underflow" }
+        9 => { for _ in 0..4 { // long integer part, short fraction
+                   let i = match r.below(4) { 0 => format!("1{}1", "0".repeat(r.range(40, 130))), 1 => { let n = r.range(40, 140); conv_random_digits(r, n) }
+                                              2 => dstr::exact(conv_random_f64(r).max(1e40)), _ => { let k = r.range(40, 130); let d = conv_random_digits(r, 17); format!("{d}{}{}", "0".repeat(k), r.below(3)) } };
+                   let i = i.split('.').next().unwrap().to_string();
+                   inputs.push((nosign(format!("{i}.{}", ["0", "5", "00", "50", "25", "999"][r.below(6)])), "decimal")); } "long-integer-part" }
+        10 => { for _ in 0..4 { // numbers of the formats written as decimals, with superfluous zeros
+                   let x = if r.chance(1, 2) { dstr::exact(conv_random_f64(r)) } else { dstr::exact(conv_random_f32(r) as f64) };
+                   let x = as_dec(x); inputs.push((nosign(format!("{x}{}", "0".repeat([0, 0, 1, 7, 40][r.below(5)]))), "decimal")); } "format-number" }
+        11 => { for _ in 0..4 { let n = r.range(45, 130); let d = conv_random_digits(r, n); let p = r.below(n + 1);
+                   let x = if p == 0 { format!("0.{}{d}", "0".repeat(r.below(25))) } else { format!("{}.{}", &d[..p], if p == n { "0" } else { &d[p..] }) };
+                   inputs.push((nosign(x), "decimal")); } "decimal-many-digits" }
+        12 => { form = 1 + r.below(4) as u8; // computed operands
+                for _ in 0..4 { match r.below(3) {
+                    0 => { let n = r.range(1, 19); inputs.push((conv_random_digits(r, n), "integer")) }
+                    1 => { let n = [20, 40, 90, 130, 200][r.below(5)]; inputs.push((conv_random_digits(r, n), "integer")) }
+                    _ => { let n = r.range(1, 60); let sc = r.range(1, 20); let d = conv_random_digits(r, n + sc); inputs.push((nosign(format!("{}.{}", &d[..n], &d[n..])), "decimal")) } } } "computed" }
+        _ => { for l in ["0", "-0", "1", "-1", "0.0", "-0.0", "0.1", "9007199254740993", "16777217", "9223372036854775807", "-9223372036854775808", "9223372036854775808", "18446744073709551616", "0.5", "0.30000000000000004", "123456789.000"] {
+                   if inputs.len() < 4 && r.chance(1, 3) { inputs.push((l.to_string(), if l.contains('.') { "decimal" } else { "integer" })); } }
+               if inputs.is_empty() { inputs.push(("1".into(), "integer")); } "small" }
+    };
+    if fam != 13 { for inp in inputs.iter_mut() { if r.chance(1, 4) && !inp.0.starts_with('-') && inp.0.bytes().any(|b| b != b'0' && b != b'.') { inp.0 = format!("-{}", inp.0); } } }
+    ConvCase { family, form, inputs }
+}
+struct ConvObs { lex: String, dt: &'static str, v: ST, vdbg: String, d: f64, f: f32 }
+fn conv_run(c: &ConvCase) -> Result<Vec<Result<ConvObs, String>>, String> {
+    let mut ds: Vec<([ST; 3], Option<ST>)> = vec![];
+    for (i, (l, dt)) in c.inputs.iter().enumerate() { ds.push(([iri(&format!("x:s{i}")), iri("x:p"), x(l, dt)], None)); }
+    let q = format!("SELECT ?s ?v ?d ?f {{ ?s <x:p> ?x BIND({} AS ?v) BIND(?v * 1e0 AS ?d) BIND(?v * {XFLOAT} AS ?f) }}", conv_form_expr(c.form));
+    let rows = match std::panic::catch_unwind(std::panic::AssertUnwindSafe(|| exec_on(&ds, 0, &q))) { Ok(r) => r?, Err(_) => return Err(format!("PANIC while evaluating {q}")) };
+    let mut out: Vec<Result<ConvObs, String>> = c.inputs.iter().map(|(l, _)| Err(format!("no solution for {l}"))).collect();
+    for row in rows {
+        let Some((s, _)) = &row[0] else { continue };
+        let Some(i) = s.iri().and_then(|i| i.as_str().strip_prefix("x:s").and_then(|n| n.parse::<usize>().ok())) else { continue };
+        let (l, dt) = &c.inputs[i];
+        out[i] = (|| {
+            let (v, vdbg) = row[1].clone().ok_or(format!("{} is an error on {l}", conv_form_expr(c.form)))?;
+            let (d, _) = row[2].clone().ok_or(format!("?v * 1e0 is an error on {l}"))?;
+            let (f, _) = row[3].clone().ok_or(format!("?v * 1 (float) is an error on {l}"))?;
+            let dl = d.lexical_form().ok_or("?d not a literal")?; let fl = f.lexical_form().ok_or("?f not a literal")?;
+            if d.datatype().map(|x| x.as_str().to_string()) != Some(format!("{XSD}double")) || f.datatype().map(|x| x.as_str().to_string()) != Some(format!("{XSD}float")) { return Err(format!("unexpected datatypes of the products on {l}")); }
+            Ok(ConvObs { lex: l.clone(), dt, v, vdbg, d: dl.parse::<f64>().map_err(|_| format!("lexical form {dl:?} of ?d"))?, f: fl.parse::<f32>().map_err(|_| format!("lexical form {fl:?} of ?f"))? })
+        })();
+    }
+    Ok(out)
+}
+/// oracle (x): Some(description) if a number of the format lies between the exact value and its image
+fn conv_crossing<F: Copy + std::fmt::LowerExp>(xv: &ora::Dec, r: F, to64: impl Fn(F) -> f64, up: impl Fn(F) -> F, down: impl Fn(F) -> F, fmt: &str) -> Option<String> {
+    let r64 = to64(r);
+    if r64.is_nan() { return Some(format!("the {fmt} image is NaN")); }
+    let xe = ora::Exact::Fin(xv.clone());
+    let cmp = |f: F| ora::exact_cmp(&ora::exact_of_f64(to64(f)).unwrap(), &xe);
+    match cmp(r) {
+        Ordering::Equal => None,
+        Ordering::Greater => { let p = down(r); if cmp(p) != Ordering::Less { Some(format!("the {fmt} image {r:e} is above the {fmt} number {p:e}, which is not below the exact value")) } else { None } }
+        Ordering::Less => { let s = up(r); if cmp(s) != Ordering::Greater { Some(format!("the {fmt} image {r:e} is below the {fmt} number {s:e}, which is not above the exact value")) } else { None } }
+    }
+}
+/// the engine's own '<' and ORDER BY on the number and the double that its image crossed
+fn conv_consequence(lex: &str, dt: &str, other: f64) -> String {
+    let ds: Vec<([ST; 3], Option<ST>)> = vec![([iri("x:s0"), iri("x:p"), x(lex, dt)], None), ([iri("x:s1"), iri("x:p"), x(&format!("{other:e}"), "double")], None)];
+    let lt = |a: usize, b: usize| exec_on(&ds, 0, &format!("SELECT ?r {{ <x:s{a}> <x:p> ?a . <x:s{b}> <x:p> ?b BIND(?a < ?b AS ?r) }}")).ok().and_then(|r| r.first().and_then(|row| row[0].clone()).map(|t| t.0.lexical_form().map(|l| l.to_string()).unwrap_or_default())).unwrap_or("error".into());
+    let order = exec_on(&ds, 0, "SELECT ?s { ?s <x:p> ?x } ORDER BY ?x").map(|r| r.iter().map(|row| row[0].as_ref().map(|t| if t.0.iri().map(|i| i.as_str() == "x:s0").unwrap_or(false) { "the number" } else { "the double" }).unwrap_or("?")).collect::<Vec<_>>().join(", then ")).unwrap_or_else(|e| e);
+    format!("engine: (number < double) = {}, (double < number) = {}; ORDER BY puts {order}", lt(0, 1), lt(1, 0))
+}
+struct ConvOut { text: String, desc: String, failure: Option<String>, body: Option<String>, bumps: Vec<String>, nontrivial: bool }
+fn run_conv_case(c: &ConvCase) -> ConvOut {
+    let shorten = |l: &str| if l.len() > 70 { format!("{}..{} ({} chars)", &l[..30], &l[l.len() - 24..], l.len()) } else { l.to_string() };
+    let text = format!("conversions [{}] of {} for {}", c.family, conv_form_expr(c.form), c.inputs.iter().map(|(l, dt)| format!("\"{l}\"^^xsd:{dt}")).collect::<Vec<_>>().join(", "));
+    let mut o = ConvOut { text, desc: String::new(), failure: None, body: None, bumps: vec![format!("v:family:{}", c.family)], nontrivial: false };
+    let obs = match conv_run(c) { Ok(o) => o, Err(e) => { o.failure = Some(e); return o } };
+    let mut bodies = vec![]; let mut descs = vec![];
+    for ob in obs {
+        let ob = match ob { Ok(ob) => ob, Err(e) => { if c.form == 0 { o.failure.get_or_insert(e); } else { o.bumps.push("v:operand-error".into()); } continue } };
+        // the operand of the promotion: the value that the engine computed (Coq), its lexical form (oracle)
+        let vlex = ob.v.lexical_form().map(|l| l.to_string()).unwrap_or_default();
+        let num = match coq_value_dbg(&ob.v, &ob.vdbg) { Ok(v) => match v.strip_prefix("(Some (VNum ").and_then(|r| r.strip_suffix("))")) { Some(n) => n.to_string(), None => { o.failure.get_or_insert(format!("operand {vlex} is not a number: {}", ob.vdbg)); continue } }, Err(e) => { o.failure.get_or_insert(e); continue } };
+        if num.starts_with("(Float") || num.starts_with("(Double") { o.bumps.push("v:operand-float".into()); continue; }
+        let Some(xv) = ora::parse_dec(&vlex, true) else { o.failure.get_or_insert(format!("lexical form {vlex:?} of the operand")); continue };
+        let (r64, r32): (f64, f32) = if xv.is_zero() { (0.0, 0.0) } else { (xv.text().parse().unwrap(), xv.text().parse().unwrap()) };
+        let variant = if num.starts_with("(NativeInt") { "native" } else if num.starts_with("(BigInt") { "bigint" } else { "decimal" };
+        o.bumps.push(format!("v:operand:{variant}"));
+        let (a64, a32) = (ob.d.to_bits() == r64.to_bits(), ob.f.to_bits() == r32.to_bits());
+        o.bumps.push(format!("v:f64:{}", if a64 { "correctly-rounded" } else { "not-correctly-rounded" }));
+        o.bumps.push(format!("v:f32:{}", if a32 { "correctly-rounded" } else { "not-correctly-rounded" }));
+        if ob.d.is_infinite() { o.bumps.push("v:f64:overflow".into()); } else if ob.d != 0.0 && ob.d.abs() < f64::MIN_POSITIVE { o.bumps.push("v:f64:subnormal".into()); } else if ob.d == 0.0 && !xv.is_zero() { o.bumps.push("v:f64:underflow-to-zero".into()); }
+        if ora::exact_cmp(&ora::exact_of_f64(ob.d).unwrap(), &ora::Exact::Fin(xv.clone())) == Ordering::Equal { o.bumps.push("v:f64:exact".into()); }
+        if variant != "native" || !a64 || !a32 { o.nontrivial = true; }
+        if variant == "native" && (!a64 || !a32) { o.failure.get_or_insert(format!("`isize as` float is not correctly rounded on {vlex}: {:e} / {:e}", ob.d, ob.f)); }
+        let c64 = conv_crossing(&xv, ob.d, |f| f, f64::next_up, f64::next_down, "f64");
+        let c32 = conv_crossing(&xv, ob.f, |f| f as f64, f32::next_up, f32::next_down, "f32");
+        if let Some(why) = c64.clone().or(c32.clone()) {
+            o.bumps.push("v:crossing".into());
+            let cons = if c64.is_some() && c.form == 0 && !ob.d.is_nan() { let other = if ob.d > r64 { ob.d.next_down() } else { ob.d.next_up() }; format!("; consequence with \"{other:e}\"^^xsd:double: {}", conv_consequence(&ob.lex, ob.dt, other)) } else { String::new() };
+            o.failure.get_or_insert(format!("conversion crosses a float: {} of \"{}\"^^xsd:{} promotes the exact value {} to f64 {:e} (correctly rounded: {:e}) and f32 {:e} (correctly rounded: {:e}): {why}{cons}", conv_form_expr(c.form), ob.lex, ob.dt, shorten(&vlex), ob.d, r64, ob.f, r32));
+        }
+        descs.push(format!("{} -> {:e}{} / {:e}{}", shorten(&vlex), ob.d, if a64 { "" } else { " (!)" }, ob.f, if a32 { "" } else { " (!)" }));
+        bodies.push(format!("conv_case_ok {num} {} {} {} {}", coq_f64(ob.d), coq_f32(ob.f), coq_f64(r64), coq_f32(r32)));
+    }
+    o.desc = descs.join("; ");
+    if !bodies.is_empty() { o.body = Some(bodies.join("\n  && ")); }
+    o
+}
+
 const TRIPLE_BASE: usize = 1_000_000_000;
 const PAIR_BASE: usize = 3_000_000_000;
 fn coq_key(k: Key) -> String { match k { Some(i) => format!("(Some p{i})"), None => "None".into() } }
@@ -1347,7 +1581,9 @@ additionally every run sorts all 2-element multisets of the swept pool and check
 end-to-end cases (kinds q:*): 2..8 (sometimes 12..45) solutions with operands ?a ?b ?c (pool terms, integers around the ends of the isize range, cancelling sums/differences/products, an unbound last operand, named graphs), 1..4 criteria that are expressions (arithmetic of depth <= 2, string/boolean/conditional/date functions, plain variables, keys computed from an earlier BIND-ed key) given directly in ORDER BY, through BIND or through a SELECT expression, ASC/DESC mixes, over a Vec of quads / LightDataset / FastDataset, through SparqlQuery::parse / prepare_query / query(&str), optionally with FILTER, LIMIT/OFFSET, DISTINCT; the keys are observed through BIND; \
 oracle on them: permutation, kind ranks, '<' from the lexical forms, (v) exactly equal values written differently are tied and the next key decides, (vi) the engine's own '<' (BIND and FILTER over all ordered pairs) never contradicts the output, (vii) a window is the window of the complete result, (viii) DISTINCT keeps the order; \
 context cases (kinds c:*): 3..7 subjects described differently by a default graph and 1..3 named graphs (values, flags, links to graph names, unbound values), a chain of 1..3 SELECTs nested directly or through GRAPH <g> / GRAPH ?g (shape string: B base pattern, g/v a GRAPH around it, G/V a GRAPH around a sub-select, So ordered, Sw ordered with LIMIT/OFFSET, Su unordered), 1..3 keys per ORDER BY among EXISTS / NOT EXISTS over a triple pattern of the active graph, of GRAPH <g>, of GRAPH ?x (bound or not), BOUND, '!', IF, COALESCE, variables (graph variables included) and constants, directly or through a SELECT expression; every ORDER BY is made free of ties (final keys ?s and the graph variables if needed); \
-oracle on them: (ix) the result equals the SPARQL 1.1 section 18 evaluation in which each key is evaluated in the active graph of its SELECT (sequence if the outermost SELECT is ordered, multiset otherwise); non-trivial = some ORDER BY of the case sorts at least two solutions".into();
+oracle on them: (ix) the result equals the SPARQL 1.1 section 18 evaluation in which each key is evaluated in the active graph of its SELECT (sequence if the outermost SELECT is ordered, multiset otherwise); non-trivial = some ORDER BY of the case sorts at least two solutions; \
+conversion cases (kinds v:*, one for every five other cases; the first two are the inputs on which the library routines used before the repairs went wrong): up to 4 xsd:integer / xsd:decimal literals (isize and beyond, 3+ limbs, up to 330 digits, decimals with up to 1100 fraction digits: exactly half-way between two neighbouring doubles / floats and one decimal unit 1..60 places deeper above or below, half-way points of f32 approached within half an ulp of f64, the overflow thresholds MAX + ulp/2, (k + 1/2) ulps of the least exponent, long integer parts with a short fraction, numbers of the formats written as decimals) or values computed from them (quotients, products), promoted by the engine through ?v * 1e0 and ?v * 1 (as an xsd:float); \
+oracle on them: (x) the promotion never crosses a float (no f64 / f32 number lies between the exact value and its image, weakly on the side of the exact value) and `isize as` float is correctly rounded; non-trivial = an operand beyond isize or an image that is not the correctly rounded one".into();
     let mut terms = pool_terms();
     let nsweep = terms.len();
     terms.extend(extra_terms());
@@ -1355,7 +1591,7 @@ oracle on them: (ix) the result equals the SPARQL 1.1 section 18 evaluation in w
     let np_all = pool.terms.len();
     let np = nsweep; // the exhaustive sweep (oracle iv) and its replay stay on the first `nsweep` terms
     // header: the pool as Coq items (term + the value the implementation parsed)
-    let mut header = String::from("From Sophia.C14 Require Import Model Context.\n");
+    let mut header = String::from("From Sophia.C14 Require Import Model Context Rounding Engine.\n");
     header.push_str(&xd_header());
     let mut class_tag: Vec<String> = vec![];
     for (i, t) in pool.terms.iter().enumerate() {
@@ -1435,7 +1671,7 @@ oracle on them: (ix) the result equals the SPARQL 1.1 section 18 evaluation in w
     // ---------- random cases
     let base = Rng::new(a.seed);
     let mut cases = vec![]; let mut seen = std::collections::HashSet::new();
-    let range: Vec<usize> = match a.only { Some(i) => vec![i], None => (0..a.n).collect() };
+    let range: Vec<usize> = match a.only { Some(i) if i < CONV_BASE => vec![i], Some(_) => vec![], None => (0..a.n).collect() };
     // indices by class, to draw related terms together
     let mut classes: Vec<(String, Vec<usize>)> = vec![];
     for (i, t) in class_tag.iter().enumerate() { let fam = t.split(':').next().unwrap().to_string(); match classes.iter_mut().find(|c| c.0 == fam) { Some(c) => c.1.push(i), None => classes.push((fam, vec![i])) } }
@@ -1541,6 +1777,22 @@ oracle on them: (ix) the result equals the SPARQL 1.1 section 18 evaluation in w
         if sum.samples.len() < 6 && nontrivial && text.len() < 400 { sum.samples.push(format!("case {idx}: {text} => {desc_txt}")); }
         sum.evaluations += 1;
         if let Some(b) = body { cases.push((idx, b)); }
+    }
+    // ---------- conversions integer/decimal -> f64 / f32 (ids from CONV_BASE)
+    let conv_range: Vec<usize> = match a.only { Some(i) if i >= CONV_BASE && i < TRIPLE_BASE => vec![i - CONV_BASE], Some(_) => vec![], None => (0..a.n / 5).collect() };
+    let mut v_samples = 0;
+    for k in conv_range {
+        let idx = CONV_BASE + k;
+        let mut r = base.fork(idx as u64);
+        let c = conv_gen(&mut r, k);
+        let o = run_conv_case(&c);
+        for b in &o.bumps { sum.bump(b); }
+        if let Some(f) = &o.failure { sum.oracle_failures.push((idx.to_string(), if f.starts_with("conversion crosses a float") { f.clone() } else { format!("{f}  [case: {}]", o.text) })); }
+        if a.only.is_some() { println!("CASE {idx}: {}\n  => {}\n  oracle: {}\n  coq: {}", o.text, o.desc, o.failure.clone().unwrap_or("ok".into()), o.body.clone().unwrap_or("-".into())); }
+        if seen.insert(o.text.clone()) && o.nontrivial { sum.distinct_nontrivial += 1; }
+        if v_samples < 3 && o.nontrivial && o.failure.is_none() && o.text.len() + o.desc.len() < 900 { v_samples += 1; sum.samples.push(format!("case {idx}: {} => {}", o.text, o.desc)); }
+        sum.evaluations += 1;
+        if let Some(b) = o.body { cases.push((idx, b)); }
     }
     if a.only.is_none() {
         sum.shards = write_shards(&a.out, &header, &cases, a.shards);
